@@ -40,4 +40,7 @@ def decode : List Char → Option (List UInt8)
 def encodeStr (b : List UInt8) : String := String.ofList (encode b)
 def decodeStr (s : String) : Option (List UInt8) := decode s.toList
 
+/-- Go's `base64.StdEncoding.DecodeString`: CR and LF anywhere in the input are ignored before decoding -/
+def decodeStrGo (s : String) : Option (List UInt8) := decode (s.toList.filter fun c => c != '\n' && c != '\r')
+
 end Hk.Base64
